@@ -11,6 +11,10 @@ CHECK = {
             "replace / drop / add), the same pushed with new_edits=false, PUT and DELETE of a single attachment, tombstone (DELETE or pushed), resurrection; "
             "per write with probability 0.4 a compare-and-swap failure without foreign mutation is forced in the compute->CAS window of the document write "
             "(first attempt, first two attempts, or first attempt of every interactive storage update of the request). "
+            "About 4% of the writes are pushes that REALLY lose their compare-and-swap: while the push (history [new, i_k..i_1, leaf]) sits in its compute->CAS window, "
+            "1 or 2 complete, acknowledged pushes of i_1..i_k (adding / replacing / keeping attachments) are committed through the REST API on the same goroutine, so the "
+            "retried push supersedes attachments that were not there when it first read the document; three scenarios pin this down. "
+            "blip part: the client answers 40% of the attachment-carrying revs with an error (409/403/500/422/404) instead of accepting them and probes getAttachment after the server accounted that answer. "
             "The write shapes of the two open findings (a new revision that does not become the winner; a tombstoned winner with promotion of another leaf) are "
             "generated only in 25% of the conflict histories and in the scenarios, so that the other histories run to full length. "
             "distinct_nontrivial = distinct sequences of write shapes (operation @ role of the parent) of histories that contain at least one stub, one replace or drop, "
@@ -43,15 +47,21 @@ CHECK = {
         "blip.getattachment_refused_as_required.for-a-document-that-is-not-being-sent": 220,
         "blip.getattachment_refused_as_required.after-the-rev-was-answered": 94,
         "blip.reads_compared": 4137,
+        "histories.raced_writes_retried_as_planned": 20,
+        "histories.concurrent_writes_committed_in_the_compute_cas_window": 30,
+        "blip.blip_revs_with_attachments_answered_with_an_error": 25,
+        "blip.getattachment_refused_as_required.after-the-rev-was-answered-with-an-error": 35,
+        "scenarios.raced_writes_retried_as_planned": 3,
         "scenarios.scenarios": 2,
         "scenarios.reads_compared": 257,
     },
     "assumptions": [
         "admin REST API and a wildcard-channel BLIP user; default sync function; delta sync off (Community Edition); current (v2, per-document) attachment key format only - legacy digest-only keys are not written by the workload",
         "forced CAS failures are ErrCasFailureShouldRetry returned from the compute->CAS window of the request goroutine's interactive storage updates: a lost compare-and-swap without any foreign mutation",
+        "real CAS losses: the concurrent writes are nested requests on the request goroutine inside the compute->CAS window (re-entrancy guarded), i.e. one fixed interleaving per raced write - the concurrent write commits after the racing write computed its update and before its CAS",
         "revs_limit and allow_conflicts are switched on the live database context between histories (allow_conflicts=true and revs_limit<20 with conflicts are not reachable through today's configuration API; conflicting branches are pushed with new_edits=false)",
         "cross-cluster versioning: only the cached flag is toggled; with it on, clean-up is not demanded",
-        "BLIP: 'the server has processed the answer to the rev' is observed through the num_doc_reads_blip statistic, which the server bumps on the same goroutine immediately before it withdraws the allowance; a getAttachment still served 600 probes (>=3 s) after that is judged a violation",
+        "BLIP: 'the server has processed the answer to the rev' is observed through the num_doc_reads_blip statistic (rev accepted) or rev_error_count (rev answered with an error), which the server bumps on the same goroutine immediately before it withdraws the allowance; a getAttachment still served 600 probes (>=3 s) after that is judged a violation",
     ],
 }
 
